@@ -101,7 +101,18 @@ def py_eval(E, args, kwargs, node):
     return E.opaque_call(VO('eval'), list(args), {}, node, label='eval(code)')
 
 
+def roman_to_roman(E, args, kwargs, node):
+    """roman.toRoman: uninterpreted on 1..4999 (assumed, exercised natively); raises outside that range"""
+    n = E.as_z3_int(args[0])
+    _assumed(E, 'roman.toRoman(n): a function of n for 1 <= n <= 4999, raises (OutOfRangeError) otherwise')
+    if not E.branch(z3.And(n >= 1, n <= 4999), 'toRoman range'):
+        _raise('ValueError', 'roman.OutOfRangeError')
+    f = z3.Function('roman.toRoman', z3.IntSort(), z3.StringSort())
+    return VS(f(n))
+
+
 TABLE = {
+    'roman.toRoman': roman_to_roman,
     'Acquisition.aq_base': aq_base,
     'zExceptions.Unauthorized': exc_ctor('Unauthorized'),
     'sys.exc_info': sys_exc_info,
